@@ -390,6 +390,18 @@ impl Space for Numbering {
                 judge(&format!("{ctx} reader at {pos}"), "ElfStream", observe_stream_at(&arc, strndx, pos), &wst, out);
             }
         }
+        if nsec == 0 && nph == 0 && d[3] == 0 && d[5] == 0 {
+            // both tables absent: the file may end right after its header. Every length from the
+            // header size to the header size + 16 must open with the same (absent) tables
+            let ehs = layout(Kind::Ehdr, enc.class).size;
+            for k in 0..=16usize {
+                let cut = Arc::new(arc[..ehs + k].to_vec());
+                let c2 = format!("{ctx}, file cut to header + {k} bytes");
+                judge(&c2, "ElfBytes", observe_slice(&cut, strndx), &ws, out);
+                judge(&c2, "ElfStream", observe_stream(&cut, strndx), &wst, out);
+            }
+            out.count("header_only_lengths");
+        }
         if ws.opened {
             out.nontrivial(idx);
             out.count("opens");
